@@ -355,6 +355,10 @@ package object
 // every object the activation allocated itself.
 //@ invariant object.PanObj: self.Pairs != nil && *self.Pairs != nil && self.Keys != nil && self.PrivateKeys != nil
 //@ invariant object.PanMap: self.Pairs != nil && *self.Pairs != nil && self.HashKeys != nil && self.NonHashablePairs != nil
+// every listed scalar key has its pair, and nothing else is in the table (established by the constructors; never
+// written afterwards - C06)
+//@ invariant object.PanMap: len(*self.Pairs) == len(*self.HashKeys)
+//@ invariant object.PanMap: forall i int :: {(*self.HashKeys)[i]} 0 <= i && i < len(*self.HashKeys) ==> has(*self.Pairs, (*self.HashKeys)[i])
 //@ invariant object.PanRange: isVal(self.Start) && isVal(self.Stop) && isVal(self.Step)
 //@ invariant object.PanBuiltIn: self.Fn != nil
 //@ invariant object.PanBuiltInIter: self.Fn != nil && self.Env != nil
